@@ -1,7 +1,7 @@
 //! thread_probe — no-libc probe for C05/C06 (tiny-std threads).
 //!
 //! argv: thread_probe <scenario> <seed> <n> [quarantine 0|1]
-//! scenarios: cells | mixed | churn | fault_clone | fault_mmap | heapres
+//! scenarios: cells | mixed | churn | fault_clone | fault_mmap | heapres | spurious
 //!
 //! Monitors inside the probe:
 //!  * a counting / quarantining global allocator wrapping the repository's Dlmalloc (live multiset,
@@ -448,9 +448,35 @@ fn point_cb(id: u32) {
         }
     }
 }
+/// 0 = never; otherwise roughly one in SPUR_ONE_IN futex waits gets an injected early return
+static SPUR_ONE_IN: AtomicU32 = AtomicU32::new(0);
+static SPUR_STATE: AtomicU64 = AtomicU64::new(0x1234_5678_9ABC_DEF1);
+static SPUR_EINTR: AtomicU64 = AtomicU64::new(0);
+static SPUR_OK: AtomicU64 = AtomicU64::new(0);
+/// 0 both, 1 EINTR only, 2 spurious wake-up only
+static SPUR_KIND: AtomicU32 = AtomicU32::new(0);
 fn futex_cb(ev: u32, _addr: usize, _val: u32, res: isize) -> u32 {
     if ev == rusl::verif::EV_WAIT_ENTER {
         FUTEX_WAITS.fetch_add(1, Ordering::Relaxed);
+        let n = SPUR_ONE_IN.load(Ordering::Relaxed);
+        if n > 0 {
+            // what the kernel may legitimately do to any futex waiter: a signal (EINTR) or a wake-up
+            // that was meant for an earlier user of the same word (returns 0 with the value unchanged)
+            let mut x = SPUR_STATE.load(Ordering::Relaxed);
+            x ^= x << 13;
+            x ^= x >> 7;
+            x ^= x << 17;
+            SPUR_STATE.store(x, Ordering::Relaxed);
+            if (x >> 11) % u64::from(n) == 0 {
+                let kind = SPUR_KIND.load(Ordering::Relaxed);
+                if kind == 1 || (kind == 0 && (x >> 40) & 1 == 0) {
+                    SPUR_EINTR.fetch_add(1, Ordering::Relaxed);
+                    return rusl::verif::ACT_EINTR;
+                }
+                SPUR_OK.fetch_add(1, Ordering::Relaxed);
+                return rusl::verif::ACT_SPURIOUS_OK;
+            }
+        }
     } else if ev == rusl::verif::EV_WAIT_EXIT && res == 0 {
         FUTEX_SLEPT.fetch_add(1, Ordering::Relaxed);
     }
@@ -801,6 +827,12 @@ fn emit_points() {
             println!("@@DISTINCT point/{n}");
         }
     }
+    let (se, so) = (SPUR_EINTR.swap(0, Ordering::Relaxed), SPUR_OK.swap(0, Ordering::Relaxed));
+    if se + so > 0 {
+        println!("@@COUNT injected_futex_eintr {se}");
+        println!("@@COUNT injected_futex_spurious_wake {so}");
+        println!("@@DISTINCT futex-injection/eintr+spurious-wake");
+    }
     println!("@@COUNT futex_waits {}", FUTEX_WAITS.swap(0, Ordering::Relaxed));
     println!("@@COUNT futex_waits_that_slept {}", FUTEX_SLEPT.swap(0, Ordering::Relaxed));
 }
@@ -884,6 +916,53 @@ fn scen_cells(seed: u64, n: usize) {
     cell_batch::<A64>(seed ^ 4, n / 4 + 1, Disp::JoinRace, false, true, &mut r);
     cell_batch::<HeapRes>(seed ^ 5, n / 4 + 1, Disp::JoinRace, false, false, &mut r);
     cell_batch::<HeapRes>(seed ^ 6, n / 4 + 1, Disp::JoinEarly, false, true, &mut r);
+}
+
+/// joins and drops that really park, with EINTR / spurious wake-ups injected into the futex waits
+fn scen_spurious(seed: u64, n: usize, kind: u32) {
+    let mut r = Rng(seed);
+    SPUR_KIND.store(kind, Ordering::Relaxed);
+    SPUR_STATE.store(seed | 1, Ordering::Relaxed);
+    SPUR_ONE_IN.store(2, Ordering::Relaxed);
+    cell_batch::<u64>(seed, n, Disp::JoinEarly, false, false, &mut r);
+    cell_batch::<Big>(seed ^ 9, n, Disp::JoinEarly, true, false, &mut r);
+    cell_batch::<u64>(seed ^ 10, n, Disp::DropLate, false, true, &mut r);
+    cell_batch::<HeapRes>(seed ^ 11, n, Disp::JoinRace, false, true, &mut r);
+    SPUR_ONE_IN.store(0, Ordering::Relaxed);
+}
+
+/// No injection: threads that exit at once followed by a join that parks on (very likely) the same
+/// join-state address. A wake-up that the kernel issues late for the previous user of that futex word
+/// would end the second join early.
+fn scen_latewake(seed: u64, n: usize) {
+    let mut r = Rng(seed);
+    QUAR_ON.store(false, Ordering::Relaxed);
+    let mut o = Out {
+        spawned: 0,
+        joined_some: 0,
+        joined_none: 0,
+        dropped: 0,
+        spawn_err: 0,
+    };
+    for i in 0..n {
+        let a = (2 * i) % MAXT;
+        let b = (2 * i + 1) % MAXT;
+        let ta = mix(seed, 2 * i as u64);
+        let tb = mix(seed, 2 * i as u64 + 1);
+        let Ok(ha) = spawn_one::<u64>(a, ta, false, false, 0) else { continue };
+        o.spawned += 1;
+        let ga = ha.join();
+        judge_join::<u64>(a, ta, false, ga, Disp::JoinRace, &mut o);
+        let Ok(hb) = spawn_one::<u64>(b, tb, false, false, 60 + r.below(200)) else { continue };
+        o.spawned += 1;
+        let gb = hb.join();
+        judge_join::<u64>(b, tb, false, gb, Disp::JoinEarly, &mut o);
+    }
+    let _ = quiesce();
+    println!("@@EVAL {}", o.spawned);
+    println!("@@COUNT latewake_pairs {}", n);
+    println!("@@DISTINCT latewake/no-injection");
+    emit_points();
 }
 
 /// heap-owning results with dropped handles (separate: candidate defect "result not dropped")
@@ -1168,6 +1247,9 @@ pub fn main() -> i32 {
     match scen {
         b"cells" => scen_cells(seed, n),
         b"heapres" => scen_heapres(seed, n),
+        b"spurious_eintr" => scen_spurious(seed, n, 1),
+        b"spurious_wake" => scen_spurious(seed, n, 2),
+        b"latewake" => scen_latewake(seed, n),
         b"mixed" => {
             scen_mixed(seed, n, 8);
             scen_mixed(seed ^ 0x55, n, 64);
